@@ -175,10 +175,29 @@ class FileResolver:
                 glob_part = str(Path(*parts[i:]))
                 break
 
+        tool_ignore = self._get_tool_ignore(root)
         for path in root.glob(glob_part):
             if path.is_file() and self._include_spec.match_file(path.name):
-                if not self._exceeds_max_size(path):
-                    yield path
+                if self._exceeds_max_size(path):
+                    continue
+                if self._is_filtered_below(path, root, tool_ignore):
+                    continue
+                yield path
+
+    def _is_filtered_below(
+        self, path: Path, root: Path, tool_ignore: pathspec.PathSpec | None
+    ) -> bool:
+        """Apply the traversal filters (exclusions, gitignore, tool ignore) to a glob result."""
+        rel = path.relative_to(root)
+        current = root
+        for i, part in enumerate(rel.parts[:-1]):
+            if self._is_dir_excluded(part, Path(*rel.parts[: i + 1]), current, tool_ignore, root):
+                return True
+            current = current / part
+        if self._config.respect_gitignore:
+            if self._is_gitignored(path, self._get_gitignore_chain(path.parent, root)):
+                return True
+        return bool(tool_ignore and tool_ignore.match_file(path.name))
 
     def _exceeds_max_size(self, path: Path) -> bool:
         """Check if a file exceeds the configured max size. 0 = no limit."""
